@@ -15,5 +15,12 @@ func evalIdent(ident *ast.Ident, env *object.Env) object.PanObject {
 		return appendStackTrace(err, ident.Source())
 	}
 
+	// NOTE: an err object held by a variable (like `_`) must be copied,
+	// otherwise its stacktrace is shared by all evaluations
+	if err, ok := val.(*object.PanErr); ok {
+		copied := *err
+		return &copied
+	}
+
 	return val
 }
